@@ -35,6 +35,26 @@ def scen():
             dirty(o)
         del objs, o
         gc.collect()
+    # an initialiser that does not cover every byte (a structure created with fewer arguments than fields), on
+    # recycled storage: the rest must still read zero
+    class Point(ctypes.Structure):
+        _fields_ = [('x', ctypes.c_int), ('y', ctypes.c_int), ('z', ctypes.c_double)]
+    for rounds in range(3):
+        olds = [SC.RawValue(Point) for _ in range(8)]
+        for o in olds:
+            dirty(o)
+        del olds, o
+        gc.collect()
+        news = [SC.RawValue(Point, 7) for _ in range(8)] + [SC.Value(Point, 3, 4, lock=False) for _ in range(4)]
+        for o in news:
+            if (o.x, o.y, o.z) not in ((7, 0, 0.0), (3, 4, 0.0)):
+                bad.append('a new shared Point created with a partial initialiser holds %r on recycled storage '
+                           '(expected zero in the fields not given)' % ((o.x, o.y, o.z),))
+                break
+        for o in news:
+            dirty(o)
+        del news, o
+        gc.collect()
     # initial values
     v = SC.RawValue('i', 42)
     if v.value != 42:
